@@ -17,56 +17,65 @@ def adapter_methods(F):
     return out
 
 
-def count_used(path, ev):
-    """is the Ok(count) of a partial-transfer call used on this path"""
-    r = ev[3]
-    ok = ("okval", r)
+def payload_terms(r):
+    return (("okval", r), ("field", ("variant", r, "Ok"), "0"))
+
+
+def nothing_remains_after(path, ev):
+    """after partial-transfer call `ev` on an Ok-returning path: is there a later true test that nothing remains
+    (is_empty(..) true, len == 0, or count == len)?"""
     idx = path.events.index(ev)
-    for e in path.events[idx + 1:]:
-        if e[0] == "call" and any(mir.mentions(a, lambda x: x == ok) for a in e[2]):
-            return True
-        if e[0] == "store" and mir.mentions(e[2], lambda x: x == ok):
-            return True
+    later_calls = {e[3]: e for e in path.events[idx + 1:] if e[0] == "call"}
+    pay = payload_terms(ev[3])
     for (t, op, v) in path.constraints:
-        if mir.mentions(t, lambda x: x == ok):
+        true_ = (op == "notin" and v == (0,)) or (op == "==" and v == 1)
+        false_ = (op == "==" and v == 0)
+        # is_empty(x) evaluated after the call
+        if t in later_calls and later_calls[t][1].endswith("::is_empty") and true_:
             return True
-    if path.ret is not None and mir.mentions(path.ret, lambda x: x == ok):
-        return True
+        if t[0] == "unop" and t[1] == "Not" and t[2] in later_calls and later_calls[t[2]][1].endswith("::is_empty") and false_:
+            return True
+        if t[0] == "binop" and t[1] in ("Eq", "Ne", "Lt", "Ge"):
+            a, b = t[2], t[3]
+            is_len = lambda z: isinstance(z, tuple) and ((z[0] == "ret" and z[2].endswith("::len")) or (z[0] == "unop" and z[1] == "PtrMetadata"))
+            has_pay = lambda z: any(mir.mentions(z, lambda x: x == q) for q in pay)
+            if t[1] == "Eq" and true_ and ((is_len(a) and (cc.const_int(b) == 0 or has_pay(b))) or (is_len(b) and (cc.const_int(a) == 0 or has_pay(a)))):
+                return True
+            if t[1] == "Ne" and false_ and ((is_len(a) and (cc.const_int(b) == 0 or has_pay(b))) or (is_len(b) and (cc.const_int(a) == 0 or has_pay(a)))):
+                return True
     return False
 
 
 def check_transfer_counts(chk, F, bodies, rule):
-    """A1: every call that may transfer fewer bytes than asked has its count used; whole-transfer calls satisfy it by contract"""
-    n_whole = 0
+    """A1: a call that may transfer fewer bytes than asked (Read::read / Write::write) must not be followed by a
+    success return unless a later test establishes that nothing remains; write_all/read_exact satisfy this by contract"""
     for b in bodies:
         paths = mir.Walker(b, unroll=1).run()
         sites = {}
         for p in paths:
+            is_ok_ret = p.end[0] == "return" and isinstance(p.ret, tuple) and not (p.ret[0] == "from_residual") and \
+                not (p.ret[0] == "agg" and p.ret[3] == "Err")
+            part = [e for e in p.calls() if e[1] in PARTIAL]
             for e in p.calls():
-                if e[1] in PARTIAL:
-                    used = count_used(p, e)
-                    # only paths that go on after the Ok branch matter
-                    went_on = any(t == ("discr", ("try", e[3])) and op == "==" and v == 0 for (t, op, v) in p.constraints) or \
-                        not any(t == ("discr", ("try", e[3])) for (t, op, v) in p.constraints)
-                    s = sites.setdefault((e[1], e[5]), {"used": True, "seen": False})
-                    if went_on:
-                        s["seen"] = True
-                        s["used"] = s["used"] and used
-                elif e[1] in WHOLE:
-                    sites.setdefault((e[1], e[5]), {"used": True, "seen": True, "whole": True})
+                if e[1] in WHOLE:
+                    sites.setdefault((e[1], e[5]), {"ok": True, "whole": True})
+            if part:
+                last = part[-1]
+                s = sites.setdefault((last[1], last[5]), {"ok": True})
+                if is_ok_ret and not nothing_remains_after(p, last):
+                    s["ok"] = False
         ords = {}
         for (callee, line), s in sorted(sites.items(), key=lambda kv: (kv[0][0], kv[0][1] or 0)):
             o = ords.get(callee, 0)
             ords[callee] = o + 1
             key = "%s|%s#%d" % (b["path"], callee.split("::")[-1], o)
             if s.get("whole"):
-                n_whole += 1
                 chk.ok(rule, key, sample={"fn": b["path"], "call": callee, "contract": "std: transfers the whole buffer or returns Err"})
             else:
-                chk.expect(rule, key, s["used"],
-                           "%s calls %s, which may transfer fewer bytes than asked, and never looks at the returned count: a short transfer is silently accepted"
-                           % (b["path"], callee), detail={"fn": b["path"], "callee": callee})
-    return n_whole
+                chk.expect(rule, key, s["ok"],
+                           "%s calls %s, which may transfer fewer bytes than asked, and then reports success on a path where nothing "
+                           "establishes that the whole buffer was transferred: a short transfer is silently accepted" % (b["path"], callee),
+                           detail={"fn": b["path"], "callee": callee})
 
 
 def run(chk, F, tier):
@@ -84,7 +93,7 @@ def run(chk, F, tier):
     for name, b in sorted(M.items()):
         d = rr.discipline(F, b)
         for (callee, line), ent in sorted(d.items(), key=lambda kv: (kv[0][0], kv[0][1] or 0)):
-            bad = ent["kinds"] - rr.OK_KINDS
+            bad = ent["kinds"] - rr.OK_KINDS - {"matched-ok"}
             chk.expect("A2.errors", "%s|%s#%d" % (name, callee.split("::")[-1], ent["ordinal"]), not bad,
                        "WordAdapter::%s: result of %s is %s" % (name, callee, sorted(bad)), sample={"fn": name, "callee": callee, "kinds": sorted(ent["kinds"])})
     # A3
@@ -108,8 +117,12 @@ def run(chk, F, tier):
         tr = [e for e in p.calls() if e[1] in PARTIAL + WHOLE]
         if len(tb) != 1 or not is_arg(tb[0][2][0], 2):
             okw, why = False, "serialises %s, not the word argument" % ([mir.fmt(e[2][0]) for e in tb])
-        elif len(tr) != 1 or not mir.mentions(mir.expand(tr[0][2][1], p), lambda x: x == ("app", tb[0][1], (("arg", 2, "word"),))):
-            okw, why = False, "the buffer handed to the sink is not the whole serialised word"
+        elif not tr:
+            emp = {e[3] for e in p.calls() if e[1].endswith("::is_empty")}
+            if not any(t in emp and ((o == "notin" and v == (0,)) or (o == "==" and v == 1)) for (t, o, v) in p.constraints):
+                okw, why = False, "a path reports success without handing anything to the sink"
+        elif any(not mir.mentions(mir.expand(x[8][1], p), lambda z: z == ("app", tb[0][1], (("arg", 2, "word"),))) for x in tr[:1]):
+            okw, why = False, "the buffer handed to the sink does not come from the serialised word"
     chk.expect("A3.byteorder", "write-whole-word", okw, "WordAdapter::write_word: " + why)
     okr = True
     for p in rp:
